@@ -192,15 +192,20 @@ def instFindings (hw : HwFacts) (i : Inst) : List Finding :=
       if mp.dir == "input" && !(i.binds.any (·.port == mp.name)) then
         some (fnd "input-unbound" i.name s!"input {mp.name} of {i.mod} is not bound") else none)
 
-def check (hw : HwFacts) (py : PyFacts) (_d : Desc) (n : Net) : List Finding :=
-  let insts := n.insts.flatMap (instFindings hw)
-  let macros := n.pkg.items.filterMap fun
+/-- every macro the package invokes exists in the shipped headers with that number of arguments
+    (needs the parsed package only, not the netlist view) -/
+def macroFindings (hw : HwFacts) (pkg : Sv.Package) : List Finding :=
+  pkg.items.filterMap fun
     | .macro name args =>
       match macroArity hw name with
       | none => some (fnd "macro-unknown" name "macro is not defined in the shipped headers")
       | some k => if k == args.length then none else
           some (fnd "macro-arity" name s!"invoked with {args.length} arguments, defined with {k}")
     | _ => none
+
+def check (hw : HwFacts) (py : PyFacts) (_d : Desc) (n : Net) : List Finding :=
+  let insts := n.insts.flatMap (instFindings hw)
+  let macros := macroFindings hw n.pkg
   let cfgFields := (n.routeCfg.filterMap fun (k, _) =>
       if (structFields hw "route_cfg_t").contains k then none
       else some (fnd "cfg-field" s!"RouteCfg.{k}" "not a field of floo_pkg::route_cfg_t")) ++
